@@ -178,212 +178,219 @@ def run(eng, R):
                  "%s %s: pointwise_version differs from the original in %s (do_fit silently switches to the twin when the covariance is diagonal)" % (cls.name, kw, diffs))
 
     # ---- D5 axis constants (explicit XY configurations beyond the registry)
-    for cname in ("XYCostFunction_Chi2", "XYCostFunction_GaussApproximation", "XYCostFunction_NegLogLikelihood"):
-        cls = p.find_class(cname)
-        for axes in ("y", "xy"):
-            for extra in ({}, {"errors_to_use": "pointwise"}) if "NegLog" not in cname else ({"data_point_distribution": "gaussian"},):
-                kw = dict(extra, axes_to_use=axes)
-                cm = cost_model(p, cls, kw)
-                if cm["arg_names"] is None:
-                    raise AnalysisError("cost model of %s %s not reconstructed" % (cname, kw))
-                unc = [w for w in cm["arg_names"] if ("cov_mat" in w or "error" in w)]
-                if axes == "y":
-                    bad = [w for w in unc if not w.startswith("y_")]
-                else:
-                    bad = [w for w in unc if w.startswith(("x_", "y_"))]
-                missing = [w for w in cm["arg_names"] if w not in graphs["XYFit"].nodes]
-                R.ob("D5", "%s:%s" % (cname, _cfg(cm)), not bad and not missing, (cls.file, cls.node.lineno),
-                     "%s(%s) wires %s: with axes_to_use='%s' the uncertainty nodes %s belong to the wrong axis set%s" % (cname, kw, cm["arg_names"], axes, bad, (" / missing nodes %s" % missing) if missing else ""))
+    with R.guard("D5 axis constants (explicit XY configurations beyond the reg"):
+        for cname in ("XYCostFunction_Chi2", "XYCostFunction_GaussApproximation", "XYCostFunction_NegLogLikelihood"):
+            cls = p.find_class(cname)
+            for axes in ("y", "xy"):
+                for extra in ({}, {"errors_to_use": "pointwise"}) if "NegLog" not in cname else ({"data_point_distribution": "gaussian"},):
+                    kw = dict(extra, axes_to_use=axes)
+                    cm = cost_model(p, cls, kw)
+                    if cm["arg_names"] is None:
+                        raise AnalysisError("cost model of %s %s not reconstructed" % (cname, kw))
+                    unc = [w for w in cm["arg_names"] if ("cov_mat" in w or "error" in w)]
+                    if axes == "y":
+                        bad = [w for w in unc if not w.startswith("y_")]
+                    else:
+                        bad = [w for w in unc if w.startswith(("x_", "y_"))]
+                    missing = [w for w in cm["arg_names"] if w not in graphs["XYFit"].nodes]
+                    R.ob("D5", "%s:%s" % (cname, _cfg(cm)), not bad and not missing, (cls.file, cls.node.lineno),
+                         "%s(%s) wires %s: with axes_to_use='%s' the uncertainty nodes %s belong to the wrong axis set%s" % (cname, kw, cm["arg_names"], axes, bad, (" / missing nodes %s" % missing) if missing else ""))
 
     # ---- D4 append / strip symmetry
-    CF = p.find_class("CostFunction")
-    init = p.method(CF, "__init__")
-    call = p.method(CF, "__call__")
-    gof = p.method(CF, "goodness_of_fit")
-    app = []
-    for n in ast.walk(init.node):
-        if isinstance(n, ast.AugAssign) and self_attr(n.target) == "_arg_names" and isinstance(n.value, ast.List):
-            conds = [self_attr(c) or ast.unparse(c) for c, pol in common.guard_conditions(init.node, n) if pol]
-            app.append((n.lineno, [common.const_str(e) for e in n.value.elts], conds))
-    app.sort()
-    order_init = []
-    for _, names, conds in app:
-        flag = next((c for c in conds if c in ("_add_constraint_cost", "_add_determinant_cost")), None)
-        if flag and (not order_init or order_init[-1][0] != flag):
-            order_init.append((flag, names))
-        elif flag:
-            pass
-    flags_init = [f for f, _ in order_init]
+    with R.guard("D4 append / strip symmetry"):
+        CF = p.find_class("CostFunction")
+        init = p.method(CF, "__init__")
+        call = p.method(CF, "__call__")
+        gof = p.method(CF, "goodness_of_fit")
+        app = []
+        for n in ast.walk(init.node):
+            if isinstance(n, ast.AugAssign) and self_attr(n.target) == "_arg_names" and isinstance(n.value, ast.List):
+                conds = [self_attr(c) or ast.unparse(c) for c, pol in common.guard_conditions(init.node, n) if pol]
+                app.append((n.lineno, [common.const_str(e) for e in n.value.elts], conds))
+        app.sort()
+        order_init = []
+        for _, names, conds in app:
+            flag = next((c for c in conds if c in ("_add_constraint_cost", "_add_determinant_cost")), None)
+            if flag and (not order_init or order_init[-1][0] != flag):
+                order_init.append((flag, names))
+            elif flag:
+                pass
+        flags_init = [f for f, _ in order_init]
 
-    def strip_order(fn):
-        out = []
-        for st in fn.node.body:
-            for n in ast.walk(st):
-                if isinstance(n, ast.If):
-                    fl = self_attr(n.test)
-                    if fl in ("_add_constraint_cost", "_add_determinant_cost"):
-                        sl = [s for s in ast.walk(n) if isinstance(s, ast.Assign) and isinstance(s.value, ast.Subscript) and isinstance(s.value.slice, ast.Slice)
-                              and isinstance(s.value.value, ast.Name) and s.value.value.id == "args"]
-                        cut = None
-                        for s in sl:
-                            up = s.value.slice.upper
-                            if isinstance(up, ast.UnaryOp) and isinstance(up.op, ast.USub) and isinstance(up.operand, ast.Constant):
-                                cut = up.operand.value
-                        out.append((fl, cut))
-        return out
+        def strip_order(fn):
+            out = []
+            for st in fn.node.body:
+                for n in ast.walk(st):
+                    if isinstance(n, ast.If):
+                        fl = self_attr(n.test)
+                        if fl in ("_add_constraint_cost", "_add_determinant_cost"):
+                            sl = [s for s in ast.walk(n) if isinstance(s, ast.Assign) and isinstance(s.value, ast.Subscript) and isinstance(s.value.slice, ast.Slice)
+                                  and isinstance(s.value.value, ast.Name) and s.value.value.id == "args"]
+                            cut = None
+                            for s in sl:
+                                up = s.value.slice.upper
+                                if isinstance(up, ast.UnaryOp) and isinstance(up.op, ast.USub) and isinstance(up.operand, ast.Constant):
+                                    cut = up.operand.value
+                            out.append((fl, cut))
+            return out
 
-    so = strip_order(call)
-    ok = flags_init == ["_add_constraint_cost", "_add_determinant_cost"] and [f for f, _ in so] == ["_add_determinant_cost", "_add_constraint_cost"] \
-        and dict(so).get("_add_determinant_cost") == 1 and dict(so).get("_add_constraint_cost") == 2
-    R.ob("D4", "CostFunction.__call__", ok, eng.where(call), "__init__ appends %s, __call__ strips %s: implicit arguments are taken off in the wrong order/number" % (order_init, so))
-    names = dict(order_init).get("_add_constraint_cost")
-    idx = {}
-    for n in ast.walk(call.node):
-        if isinstance(n, ast.Assign) and isinstance(n.value, ast.Subscript) and isinstance(n.value.value, ast.Name) and n.value.value.id == "args" and isinstance(n.targets[0], ast.Name):
-            sl = n.value.slice
-            if isinstance(sl, ast.UnaryOp) and isinstance(sl.operand, ast.Constant):
-                idx[n.targets[0].id] = -sl.operand.value
-    ok = names == ["parameter_values", "parameter_constraints"] and idx.get("_par_constraints") == -1 and idx.get("_par_vals") == -2
-    R.ob("D4", "CostFunction.__call__:constraint slots", ok, eng.where(call), "constraint arguments appended as %s but read as %s" % (names, idx))
-    sg = strip_order(gof)
-    flags_g = [f for f, c in sg if c is not None]
-    # goodness_of_fit zeroes the determinant (args[:-1] + (0.0,)) and then strips determinant, constraints for the saturated call
-    ok = "_add_determinant_cost" in [f for f, _ in sg] and "_add_constraint_cost" in [f for f, _ in sg]
-    zero = any(isinstance(n, ast.Assign) and isinstance(n.value, ast.BinOp) and isinstance(n.value.op, ast.Add) and "args[:-1]" in ast.unparse(n.value.left) and "0.0" in ast.unparse(n.value.right)
-               for n in ast.walk(gof.node))
-    R.ob("D4", "CostFunction.goodness_of_fit", ok and zero, eng.where(gof), "goodness_of_fit must zero the determinant argument and strip determinant and constraint arguments for the saturated call (found %s, zeroing=%s)" % (sg, zero))
+        so = strip_order(call)
+        ok = flags_init == ["_add_constraint_cost", "_add_determinant_cost"] and [f for f, _ in so] == ["_add_determinant_cost", "_add_constraint_cost"] \
+            and dict(so).get("_add_determinant_cost") == 1 and dict(so).get("_add_constraint_cost") == 2
+        R.ob("D4", "CostFunction.__call__", ok, eng.where(call), "__init__ appends %s, __call__ strips %s: implicit arguments are taken off in the wrong order/number" % (order_init, so))
+        names = dict(order_init).get("_add_constraint_cost")
+        idx = {}
+        for n in ast.walk(call.node):
+            if isinstance(n, ast.Assign) and isinstance(n.value, ast.Subscript) and isinstance(n.value.value, ast.Name) and n.value.value.id == "args" and isinstance(n.targets[0], ast.Name):
+                sl = n.value.slice
+                if isinstance(sl, ast.UnaryOp) and isinstance(sl.operand, ast.Constant):
+                    idx[n.targets[0].id] = -sl.operand.value
+        ok = names == ["parameter_values", "parameter_constraints"] and idx.get("_par_constraints") == -1 and idx.get("_par_vals") == -2
+        R.ob("D4", "CostFunction.__call__:constraint slots", ok, eng.where(call), "constraint arguments appended as %s but read as %s" % (names, idx))
+        sg = strip_order(gof)
+        flags_g = [f for f, c in sg if c is not None]
+        # goodness_of_fit zeroes the determinant (args[:-1] + (0.0,)) and then strips determinant, constraints for the saturated call
+        ok = "_add_determinant_cost" in [f for f, _ in sg] and "_add_constraint_cost" in [f for f, _ in sg]
+        zero = any(isinstance(n, ast.Assign) and isinstance(n.value, ast.BinOp) and isinstance(n.value.op, ast.Add) and "args[:-1]" in ast.unparse(n.value.left) and "0.0" in ast.unparse(n.value.right)
+                   for n in ast.walk(gof.node))
+        R.ob("D4", "CostFunction.goodness_of_fit", ok and zero, eng.where(gof), "goodness_of_fit must zero the determinant argument and strip determinant and constraint arguments for the saturated call (found %s, zeroing=%s)" % (sg, zero))
 
     # ---- D2b chi2_probability subtracts the determinant node the cost adds
-    FB = p.find_class("FitBase")
-    cp = p.prop(FB, "chi2_probability").fget
-    gets = [c.args[0] for c in ast.walk(cp.node) if isinstance(c, ast.Call) and isinstance(c.func, ast.Attribute) and c.func.attr == "get" and self_attr(c.func.value) == "_nexus" and c.args]
-    guard_ok = any(isinstance(n, ast.If) and "add_determinant_cost" in ast.unparse(n.test) for n in ast.walk(cp.node))
-    det_names = set()
-    for cn in FITS:
-        for ident, cm in registry_cost_models(eng, p.find_class(cn)):
-            if cm["fields"].get("_add_determinant_cost") is True and "[pointwise twin]" not in ident:
-                det_names.add(cm["arg_names"][-1])
-    ok = len(gets) == 1 and guard_ok
-    if ok:
-        a = gets[0]
-        if common.const_str(a) is not None:
-            ok = det_names == {common.const_str(a)}
-        else:
-            ok = " ".join(ast.unparse(common.resolve_local(cp.node, a)).split()) == "self._cost_function.arg_names[-1]"  # last argument = determinant node (D4); temporaries read through
-    R.ob("D2", "FitBase.chi2_probability", ok, eng.where(cp),
-         "chi2_probability subtracts %s (guarded by add_determinant_cost: %s); the registry cost functions add %s" % ([ast.unparse(a) for a in gets], guard_ok, sorted(det_names)))
+    with R.guard("D2b chi2_probability subtracts the determinant node the cost"):
+        FB = p.find_class("FitBase")
+        cp = p.prop(FB, "chi2_probability").fget
+        gets = [c.args[0] for c in ast.walk(cp.node) if isinstance(c, ast.Call) and isinstance(c.func, ast.Attribute) and c.func.attr == "get" and self_attr(c.func.value) == "_nexus" and c.args]
+        guard_ok = any(isinstance(n, ast.If) and "add_determinant_cost" in ast.unparse(n.test) for n in ast.walk(cp.node))
+        det_names = set()
+        for cn in FITS:
+            for ident, cm in registry_cost_models(eng, p.find_class(cn)):
+                if cm["fields"].get("_add_determinant_cost") is True and "[pointwise twin]" not in ident:
+                    det_names.add(cm["arg_names"][-1])
+        ok = len(gets) == 1 and guard_ok
+        if ok:
+            a = gets[0]
+            if common.const_str(a) is not None:
+                ok = det_names == {common.const_str(a)}
+            else:
+                ok = " ".join(ast.unparse(common.resolve_local(cp.node, a)).split()) == "self._cost_function.arg_names[-1]"  # last argument = determinant node (D4); temporaries read through
+        R.ob("D2", "FitBase.chi2_probability", ok, eng.where(cp),
+             "chi2_probability subtracts %s (guarded by add_determinant_cost: %s); the registry cost functions add %s" % ([ast.unparse(a) for a in gets], guard_ok, sorted(det_names)))
 
     # ---- D6 callback wiring
-    for f in p.all_functions():
-        if not f.module.name.startswith("kafe2.fit"):
-            continue
-        for n in ast.walk(f.node):
-            if isinstance(n, ast.Assign):
-                for t in n.targets:
-                    if isinstance(t, ast.Attribute) and t.attr.startswith("_on_") and not is_self(t.value):
-                        # the field must be read by some class of the container family
-                        readers = []
-                        for g in p.all_functions():
-                            for a in ast.walk(g.node):
-                                if isinstance(a, ast.Attribute) and a.attr == t.attr and isinstance(a.ctx, ast.Load) and is_self(a.value):
-                                    readers.append(g.qualname)
-                        R.ob("D6", "%s:%s" % (f.qualname, norm_stmt(t)), bool(readers), (f.file, n.lineno),
-                             "%s stores the callback in %s, a field no class reads: the invalidation hook is never called (a source referring to this object "
-                             "never resets the minimizer, marks the error nodes or triggers the switch away from chi2_no_errors)" % (f.qualname, norm_stmt(t)))
-    # both containers of a fit get the hook
-    ds = p.prop(FB, "data").fset
-    hooked = set()
-    for ctxn in FITS:
-        ctx = p.find_class(ctxn)
-        w = eng.eff.trans_writes(ctx, ds)
-        R.ob("D6", "%s.data.fset:data container hook" % ctxn, "_data_container._on_error_change_callback" in w, eng.where(ds), "%s: the data container is not wired to the fit's _on_error_change" % ctxn)
-        R.ob("D6", "%s.data.fset:model hook" % ctxn, "_param_model._on_error_change_callback" in w, eng.where(ds), "%s: the parametric model is not wired to the fit's _on_error_change (model-referenced sources do not invalidate the fit)" % ctxn)
+    with R.guard("D6 callback wiring"):
+        for f in p.all_functions():
+            if not f.module.name.startswith("kafe2.fit"):
+                continue
+            for n in ast.walk(f.node):
+                if isinstance(n, ast.Assign):
+                    for t in n.targets:
+                        if isinstance(t, ast.Attribute) and t.attr.startswith("_on_") and not is_self(t.value):
+                            # the field must be read by some class of the container family
+                            readers = []
+                            for g in p.all_functions():
+                                for a in ast.walk(g.node):
+                                    if isinstance(a, ast.Attribute) and a.attr == t.attr and isinstance(a.ctx, ast.Load) and is_self(a.value):
+                                        readers.append(g.qualname)
+                            R.ob("D6", "%s:%s" % (f.qualname, norm_stmt(t)), bool(readers), (f.file, n.lineno),
+                                 "%s stores the callback in %s, a field no class reads: the invalidation hook is never called (a source referring to this object "
+                                 "never resets the minimizer, marks the error nodes or triggers the switch away from chi2_no_errors)" % (f.qualname, norm_stmt(t)))
+        # both containers of a fit get the hook
+        ds = p.prop(FB, "data").fset
+        hooked = set()
+        for ctxn in FITS:
+            ctx = p.find_class(ctxn)
+            w = eng.eff.trans_writes(ctx, ds)
+            R.ob("D6", "%s.data.fset:data container hook" % ctxn, "_data_container._on_error_change_callback" in w, eng.where(ds), "%s: the data container is not wired to the fit's _on_error_change" % ctxn)
+            R.ob("D6", "%s.data.fset:model hook" % ctxn, "_param_model._on_error_change_callback" in w, eng.where(ds), "%s: the parametric model is not wired to the fit's _on_error_change (model-referenced sources do not invalidate the fit)" % ctxn)
 
     # ---- D8 normalise-then-use
-    XC = p.find_class("XYContainer")
-    for name, f in sorted(XC.methods.items()):
-        norm = None
-        for n in ast.walk(f.node):
-            if isinstance(n, ast.Assign) and isinstance(n.value, ast.Call) and isinstance(n.value.func, ast.Attribute) and n.value.func.attr == "_find_axis_raise" and n.value.args \
-                    and isinstance(n.value.args[0], ast.Name) and isinstance(n.targets[0], ast.Name):
-                norm = (n.value.args[0].id, n.targets[0].id, n)
-        if not norm:
-            continue
-        raw, cooked, asg = norm
-        uses = [u for u in ast.walk(f.node) if isinstance(u, ast.Name) and u.id == raw and isinstance(u.ctx, ast.Load) and u is not asg.value.args[0]]
-        R.ob("D8", "XYContainer.%s" % name, not uses, (f.file, uses[0].lineno if uses else f.lineno),
-             "XYContainer.%s normalises `%s` to `%s` but still uses the raw value (%s): a string axis ends up as an index / dictionary key" % (
-                 name, raw, cooked, norm_stmt(common.enclosing_stmt(f.node, uses[0]))[:80] if uses else ""))
+    with R.guard("D8 normalisethenuse"):
+        XC = p.find_class("XYContainer")
+        for name, f in sorted(XC.methods.items()):
+            norm = None
+            for n in ast.walk(f.node):
+                if isinstance(n, ast.Assign) and isinstance(n.value, ast.Call) and isinstance(n.value.func, ast.Attribute) and n.value.func.attr == "_find_axis_raise" and n.value.args \
+                        and isinstance(n.value.args[0], ast.Name) and isinstance(n.targets[0], ast.Name):
+                    norm = (n.value.args[0].id, n.targets[0].id, n)
+            if not norm:
+                continue
+            raw, cooked, asg = norm
+            uses = [u for u in ast.walk(f.node) if isinstance(u, ast.Name) and u.id == raw and isinstance(u.ctx, ast.Load) and u is not asg.value.args[0]]
+            R.ob("D8", "XYContainer.%s" % name, not uses, (f.file, uses[0].lineno if uses else f.lineno),
+                 "XYContainer.%s normalises `%s` to `%s` but still uses the raw value (%s): a string axis ends up as an index / dictionary key" % (
+                     name, raw, cooked, norm_stmt(common.enclosing_stmt(f.node, uses[0]))[:80] if uses else ""))
 
     # ---- D-pure: evaluating a cost function writes nothing on the cost-function object (instances are shared between fits: default arguments, user-supplied objects)
-    R.rule("D-pure", "the cost handle of every registry entry and CostFunction.__call__ write no field of the cost-function object (a cost value depends on the arguments only)", 8)
-    CF = p.find_class("CostFunction")
-    seen_h = set()
-    for ctx in [p.find_class(x) for x in FITS]:
-        for ident, cm in registry_cost_models(eng, ctx):
-            hf = cm.get("handle_func")
-            cls = cm.get("class") or (hf.cls if hf is not None else None)
-            if hf is None or (hf.qualname in seen_h):
-                continue
-            seen_h.add(hf.qualname)
-            w = sorted(x for x in eng.eff.trans_writes(hf.cls, hf) if not x.startswith(("args", "kwargs")))
-            w = [x for x in w if "." not in x or x.startswith("self.")]
-            R.ob("D-pure", "%s" % hf.qualname, not w, eng.where(hf),
-                 "%s writes %s while evaluating the cost: the object is shared by every fit that uses this instance (HistFit's default argument, user-supplied cost functions), "
-                 "so values cached from one fit's data leak into another fit's cost" % (hf.qualname, w))
-    cf_call = CF.find_method("__call__")
-    w = sorted(eng.eff.trans_writes(CF, cf_call))
-    R.ob("D-pure", "CostFunction.__call__", not w, eng.where(cf_call), "CostFunction.__call__ writes %s" % w)
+    with R.guard("Dpure: evaluating a cost function writes nothing on the cost"):
+        R.rule("D-pure", "the cost handle of every registry entry and CostFunction.__call__ write no field of the cost-function object (a cost value depends on the arguments only)", 8)
+        CF = p.find_class("CostFunction")
+        seen_h = set()
+        for ctx in [p.find_class(x) for x in FITS]:
+            for ident, cm in registry_cost_models(eng, ctx):
+                hf = cm.get("handle_func")
+                cls = cm.get("class") or (hf.cls if hf is not None else None)
+                if hf is None or (hf.qualname in seen_h):
+                    continue
+                seen_h.add(hf.qualname)
+                w = sorted(x for x in eng.eff.trans_writes(hf.cls, hf) if not x.startswith(("args", "kwargs")))
+                w = [x for x in w if "." not in x or x.startswith("self.")]
+                R.ob("D-pure", "%s" % hf.qualname, not w, eng.where(hf),
+                     "%s writes %s while evaluating the cost: the object is shared by every fit that uses this instance (HistFit's default argument, user-supplied cost functions), "
+                     "so values cached from one fit's data leak into another fit's cost" % (hf.qualname, w))
+        cf_call = CF.find_method("__call__")
+        w = sorted(eng.eff.trans_writes(CF, cf_call))
+        R.ob("D-pure", "CostFunction.__call__", not w, eng.where(cf_call), "CostFunction.__call__ writes %s" % w)
 
     # ---- H-proj: formulas that combine the declared sources into the matrices the cost functions receive
-    from .formulas import check, check_lambda, get_func as _gf
+    with R.guard("Hproj: formulas that combine the declared sources into the m"):
+        from .formulas import check, check_lambda, get_func as _gf
 
-    R.rule("H-proj", "total = data + model uncertainties (matrices added, pointwise errors in quadrature); x uncertainties are projected onto y through the model slope: "
-                     "V = V_y + V_x o outer(f', f') (signed slopes), sigma = sqrt(sigma_y^2 + (sigma_x f')^2), slope taken at the current parameters", 6)
-    D = "self._param_model.eval_model_function_derivative_by_x(x=x_model, dx=0.01 * sqrt(diag(x_cov_mat)), model_parameters=parameter_values)"
-    KP = ["x_cov_mat", "y_cov_mat", "x_model", "parameter_values", "x_error", "y_error", "()abs", "()outer", "()diag", "self._param_model.eval_model_function_derivative_by_x",
-          "()self._param_model.eval_model_function_derivative_by_x", "self._param_model"]
-    check(eng, R, "H-proj", "XYFit", "_project_cov_mat", "return", "y_cov_mat + x_cov_mat * outer(%s, %s)" % (D, D), known=KP,
-          what="projected covariance = y covariance + x covariance o outer(slope, slope) with signed slopes at the current parameters")
-    D1 = "self._param_model.eval_model_function_derivative_by_x(x=x_model, dx=0.01 * x_error, model_parameters=parameter_values)"
-    check(eng, R, "H-proj", "XYFit", "_project_error", "return", "sqrt(square(y_error) + square(x_error * %s))" % D1, known=KP,
-          what="projected pointwise uncertainty = sqrt(y error^2 + (x error x slope)^2)")
-    xin = _gf(p, "XYFit", "_init_nexus")
-    xsrc = common.src_of(xin.node)
-    R.ob("H-proj", "XYFit._init_nexus:total_cov_mat", "self._nexus.add_function(self._project_cov_mat, 'total_cov_mat', ['x_total_cov_mat', 'y_total_cov_mat', 'x_model', 'parameter_values']" in xsrc, eng.where(xin),
-         "the projected covariance node must receive the total x and y covariance matrices, the x values and the current parameters, in this order")
-    R.ob("H-proj", "XYFit._init_nexus:total_error", "self._nexus.add_function(self._project_error, 'total_error', ['x_total_error', 'y_total_error', 'x_model', 'parameter_values']" in xsrc, eng.where(xin),
-         "the projected error node must receive the total x and y errors, the x values and the current parameters, in this order")
-    check_lambda(eng, R, "H-proj", "FitBase", "_init_nexus", "_error", "sqrt(ARG0 ** 2 + ARG1 ** 2)", "total pointwise uncertainty = model and data uncertainties in quadrature")
-    check_lambda(eng, R, "H-proj", "FitBase", "_init_nexus", "_mat_name", "ARG0 + ARG1", "total covariance = model covariance + data covariance")
+        R.rule("H-proj", "total = data + model uncertainties (matrices added, pointwise errors in quadrature); x uncertainties are projected onto y through the model slope: "
+                         "V = V_y + V_x o outer(f', f') (signed slopes), sigma = sqrt(sigma_y^2 + (sigma_x f')^2), slope taken at the current parameters", 6)
+        D = "self._param_model.eval_model_function_derivative_by_x(x=x_model, dx=0.01 * sqrt(diag(x_cov_mat)), model_parameters=parameter_values)"
+        KP = ["x_cov_mat", "y_cov_mat", "x_model", "parameter_values", "x_error", "y_error", "()abs", "()outer", "()diag", "self._param_model.eval_model_function_derivative_by_x",
+              "()self._param_model.eval_model_function_derivative_by_x", "self._param_model"]
+        check(eng, R, "H-proj", "XYFit", "_project_cov_mat", "return", "y_cov_mat + x_cov_mat * outer(%s, %s)" % (D, D), known=KP,
+              what="projected covariance = y covariance + x covariance o outer(slope, slope) with signed slopes at the current parameters")
+        D1 = "self._param_model.eval_model_function_derivative_by_x(x=x_model, dx=0.01 * x_error, model_parameters=parameter_values)"
+        check(eng, R, "H-proj", "XYFit", "_project_error", "return", "sqrt(square(y_error) + square(x_error * %s))" % D1, known=KP,
+              what="projected pointwise uncertainty = sqrt(y error^2 + (x error x slope)^2)")
+        xin = _gf(p, "XYFit", "_init_nexus")
+        xsrc = common.src_of(xin.node)
+        R.ob("H-proj", "XYFit._init_nexus:total_cov_mat", "self._nexus.add_function(self._project_cov_mat, 'total_cov_mat', ['x_total_cov_mat', 'y_total_cov_mat', 'x_model', 'parameter_values']" in xsrc, eng.where(xin),
+             "the projected covariance node must receive the total x and y covariance matrices, the x values and the current parameters, in this order")
+        R.ob("H-proj", "XYFit._init_nexus:total_error", "self._nexus.add_function(self._project_error, 'total_error', ['x_total_error', 'y_total_error', 'x_model', 'parameter_values']" in xsrc, eng.where(xin),
+             "the projected error node must receive the total x and y errors, the x values and the current parameters, in this order")
+        check_lambda(eng, R, "H-proj", "FitBase", "_init_nexus", "_error", "sqrt(ARG0 ** 2 + ARG1 ** 2)", "total pointwise uncertainty = model and data uncertainties in quadrature")
+        check_lambda(eng, R, "H-proj", "FitBase", "_init_nexus", "_mat_name", "ARG0 + ARG1", "total covariance = model covariance + data covariance")
 
     # ---- Dsw switch from implicit no-errors cost, exact diagonality test
-    oec = p.method(FB, "_on_error_change")
-    g = eng.cfg(oec)
-    sw = [n for n in ast.walk(oec.node) if isinstance(n, ast.If) and ("implicit_no_errors", True) in common.literals(n.test)]
-    ok = False
-    if sw:
-        body = ast.unparse(ast.Module(body=sw[0].body, type_ignores=[]))
-        ok = "chi2_covariance" in body and "_init_cost_function" in body and "_implicit_no_errors = False" in body and "pointwise_version" in body
-        # the minimisation target is re-selected inside the branch or unconditionally afterwards
+    with R.guard("Dsw switch from implicit noerrors cost, exact diagonality te"):
+        oec = p.method(FB, "_on_error_change")
+        g = eng.cfg(oec)
+        sw = [n for n in ast.walk(oec.node) if isinstance(n, ast.If) and ("implicit_no_errors", True) in common.literals(n.test)]
+        ok = False
+        if sw:
+            body = ast.unparse(ast.Module(body=sw[0].body, type_ignores=[]))
+            ok = "chi2_covariance" in body and "_init_cost_function" in body and "_implicit_no_errors = False" in body and "pointwise_version" in body
+            # the minimisation target is re-selected inside the branch or unconditionally afterwards
 
-        def selects(n):
-            st = n.stmt
-            return n.kind == "stmt" and isinstance(st, ast.Assign) and any(isinstance(t, ast.Attribute) and t.attr == "parameter_to_minimize" for t in st.targets)
+            def selects(n):
+                st = n.stmt
+                return n.kind == "stmt" and isinstance(st, ast.Assign) and any(isinstance(t, ast.Attribute) and t.attr == "parameter_to_minimize" for t in st.targets)
 
-        sw_node = [n for n in g.nodes if n.kind == "test" and n.stmt is sw[0]]
-        ok = ok and bool(sw_node) and g.all_paths_pass(sw_node[0].id, selects)[0]
-    R.ob("Dsw", "FitBase._on_error_change:switch", ok, eng.where(oec), "_on_error_change does not replace the implicit chi2_no_errors by the covariance chi2 (cost, pointwise twin, graph node, minimization target, flag)")
-    isd = p.resolve_name(p.module("kafe2.fit.util"), "is_diagonal")
-    tol = [common.call_name(c) for c in ast.walk(isd.node) if isinstance(c, ast.Call) and common.call_name(c) in ("allclose", "isclose", "assert_allclose", "array_equiv")]
-    cmps = [type(o).__name__ for c in ast.walk(isd.node) if isinstance(c, ast.Compare) for o in c.ops]
-    R.ob("Dsw", "is_diagonal:exact", not tol and not any(o in ("Lt", "LtE", "Gt", "GtE") for o in cmps), (isd.file, isd.lineno),
-         "is_diagonal uses a tolerance (%s %s): a covariance with small but non-zero correlations is treated as diagonal and do_fit silently minimises the pointwise cost" % (tol, cmps))
-    df = p.method(FB, "do_fit")
-    txt = eng.csrc(df)  # canonical form: if/else, conditional expression, negated test and a temporary for the name are the same selection
-    R.ob("Dsw", "do_fit:cost selection", "self._fitter.parameter_to_minimize = (self._cost_function_pointwise if is_diagonal(self.total_cov_mat) else self._cost_function).name" in txt, eng.where(df),
-         "do_fit must minimise the pointwise twin only if the total covariance matrix is diagonal, the covariance cost otherwise")
-
+            sw_node = [n for n in g.nodes if n.kind == "test" and n.stmt is sw[0]]
+            ok = ok and bool(sw_node) and g.all_paths_pass(sw_node[0].id, selects)[0]
+        R.ob("Dsw", "FitBase._on_error_change:switch", ok, eng.where(oec), "_on_error_change does not replace the implicit chi2_no_errors by the covariance chi2 (cost, pointwise twin, graph node, minimization target, flag)")
+        isd = p.resolve_name(p.module("kafe2.fit.util"), "is_diagonal")
+        tol = [common.call_name(c) for c in ast.walk(isd.node) if isinstance(c, ast.Call) and common.call_name(c) in ("allclose", "isclose", "assert_allclose", "array_equiv")]
+        cmps = [type(o).__name__ for c in ast.walk(isd.node) if isinstance(c, ast.Compare) for o in c.ops]
+        R.ob("Dsw", "is_diagonal:exact", not tol and not any(o in ("Lt", "LtE", "Gt", "GtE") for o in cmps), (isd.file, isd.lineno),
+             "is_diagonal uses a tolerance (%s %s): a covariance with small but non-zero correlations is treated as diagonal and do_fit silently minimises the pointwise cost" % (tol, cmps))
+        df = p.method(FB, "do_fit")
+        txt = eng.csrc(df)  # canonical form: if/else, conditional expression, negated test and a temporary for the name are the same selection
+        R.ob("Dsw", "do_fit:cost selection", "self._fitter.parameter_to_minimize = (self._cost_function_pointwise if is_diagonal(self.total_cov_mat) else self._cost_function).name" in txt, eng.where(df),
+             "do_fit must minimise the pointwise twin only if the total covariance matrix is diagonal, the covariance cost otherwise")
 
 def _cfg(cm):
     return ",".join("%s=%s" % kv for kv in sorted(cm["kwargs"].items())) or "default"
